@@ -1,6 +1,6 @@
 (* Extraction of the executable model and acceptors to OCaml (ExtrOcamlBasic only). *)
 From Coq Require Import ExtrOcamlBasic.
-From W Require Import model.Base model.Fnv model.Utf8 model.Sanitize model.WalKey model.Engine model.EngineCfg spec.Queue spec.Crash model.Frame spec.FrameSpec model.Map model.Bincode model.Meta model.Adapter model.RaftStore spec.RaftSpec model.Hdr spec.Damage model.Durable spec.PowerLoss model.Clean spec.CleanSpec.
+From W Require Import model.Base model.Fnv model.Utf8 model.Sanitize model.WalKey model.Engine model.EngineCfg spec.Queue spec.Crash model.Frame spec.FrameSpec model.Map model.Bincode model.Meta model.Adapter model.RaftStore spec.RaftSpec model.Hdr spec.Damage model.Durable spec.PowerLoss model.Clean spec.CleanSpec model.Trk.
 Extraction "model.ml"
   N.add N.mul N.div N.modulo N.eqb N.ltb N.leb N.sub N.of_nat N.to_nat
   checksum64 utf8_encode utf8_decode
@@ -18,4 +18,5 @@ Extraction "model.ml"
   decode_hdr class_of encode_hdr enc_entry entry_read scan_file topic_stream utf8_ok c11_ok
   drun dstep d_init proto_ok mrun_stop dm_init pick_outcome unsynced admissible_outcomes dlook owner flen ino_ops version_of reflected_ends
   c10_strict_ok c10_appends_ok
-  k_init k_step k_quiet k_accept k_c17_ok.
+  k_init k_step k_quiet k_accept k_c17_ok
+  trk0 trk_run trk_requests contract_ok c12_trace_ok marks_repeated reregistered.
